@@ -59,7 +59,9 @@ func (it pItem) equal(o pItem) bool {
 	return it.ID == o.ID && it.V == o.V && bytes.Equal(it.Pad, o.Pad)
 }
 
-func (it pItem) String() string { return fmt.Sprintf("{%s v=%d pad=%d}", short(it.ID), it.V, len(it.Pad)) }
+func (it pItem) String() string {
+	return fmt.Sprintf("{%s v=%d pad=%d}", short(it.ID), it.V, len(it.Pad))
+}
 
 func short(s string) string {
 	if len(s) > 8 {
